@@ -130,6 +130,8 @@ func initGlobals() {
 	initOnce.Do(func() {
 		t := true
 		log.InitLog(config.LogConfig{LevelStr: "panic", Handler: config.LogHandlerConfig{StdOut: true}, Caller: &t, Func: &t})
+		// global syncer configuration: must be created OUTSIDE any bubble (it owns channels)
+		initSyncerConfig()
 	})
 }
 
